@@ -94,6 +94,8 @@ def binop_set(op, outcome):
 
 def analyze(ctx, want):
     F = ctx.facts
+    from . import adaptors
+    adaptors.analyze(ctx, ("C05.e",))       # the simulation looks at every character, every active state, every transition
     ctx.trust("rustc type checker / MIR construction (nightly), the fact driver")
     ctx.trust("std: Ord::cmp on usize, Option, HashMap::get, str::split_at_checked, char::len_utf8")
 
